@@ -352,6 +352,50 @@ class Exec:
             prev.append(full)
         return True
 
+    def _match_table(self, e, arms):
+        """a value-producing match over (a tuple of) fieldless enums of the crate, without guards or bindings: its full table in variant order —
+        independent of how the arms are grouped (or-patterns, wildcards, arm order)"""
+        ty = (e['scrut'].get('ty') or hir.strip(e['scrut']).get('ty') or '').strip()
+        comps = [x.strip() for x in ty[1:-1].split(',')] if ty.startswith('(') and ty.endswith(')') else [ty]
+        doms = []
+        for c in comps:
+            a = self.facts.get('adts', {}).get(c.replace('&', '').strip())
+            if not (a and a.get('kind') == 'enum' and all(not v['fields'] for v in a['variants'])):
+                return None
+            doms.append([v['name'] for v in a['variants']])
+        if any(a.get('guard') for a in e['arms']):
+            return None
+
+        def matches(p, val):
+            k = p.get('k')
+            if k == 'Wild':
+                return True
+            if k == 'Ref':
+                return matches(p['sub'], val)
+            if k == 'Or':
+                return any(matches(sp, val) for sp in p['sub'])
+            if k == 'Path':
+                return (p['res'].get('path') or '').rsplit('::', 1)[-1] == val[0] if len(val) == 1 else None
+            if k == 'Tuple' and len(p['sub']) == len(val):
+                r = [matches(sp, (v,)) for sp, v in zip(p['sub'], val)]
+                return None if None in r else all(r)
+            return None
+        import itertools
+        out = []
+        for combo in itertools.product(*doms):
+            hit = None
+            for (a, (_pt, body)) in zip(e['arms'], arms):
+                m = matches(a['pat'], combo)
+                if m is None:
+                    return None
+                if m:
+                    hit = body
+                    break
+            if hit is None:
+                return None
+            out.append(('(%s)' % ', '.join(combo) if len(combo) > 1 else combo[0], hit))
+        return out
+
     def unk_stmt(self, what, node):
         """statement-level construct that is not modelled: only matters if it can hide a graph effect"""
         if any(n.get('k') == 'MethodCall' and (n.get('callee') or '').startswith(GL) and n.get('mutborrow') is None and hir.strip(n['recv']).get('mutborrow')
@@ -477,6 +521,9 @@ class Exec:
             for a in e['arms']:
                 div = hir.diverges(hir.strip(a['body'])) or any('panic' in (hir.callee(c) or '') for c in hir.calls(a['body']))
                 arms.append((hir.pp_pat(a['pat']), '!' if div else show(self.ev(a['body']))))
+            tbl = self._match_table(e, arms)
+            if tbl is not None:
+                return Val('match', show(sc), tuple(tbl))
             return Val('match', show(sc), tuple(arms))
         return Val('unk', k)
 
@@ -1308,6 +1355,31 @@ def norm_line(line):
     return _norm_line(alpha_line(line))
 
 
+def inline_lets(lines):
+    """`let NAME = VALUE` lines name compound scalar values for readability: they are definitions, not effects.  They are substituted into the
+    lines that use the name and dropped, so that neither the name nor the place of the definition matters."""
+    defs = {}
+    rest = []
+    for l in lines:
+        eff = l.split(' : ', 1)[1] if ' : ' in l else l
+        m = re.match(r'^let ([A-Za-z_][A-Za-z0-9_]*) = (.*)$', eff)
+        if m and m.group(1) not in defs:
+            defs[m.group(1)] = m.group(2)
+        elif m and defs.get(m.group(1)) == m.group(2):
+            pass
+        else:
+            rest.append(l)
+    if not defs:
+        return list(lines)
+    out = []
+    for l in rest:
+        for _round in range(3):
+            for nm, val in defs.items():
+                l = re.sub(r'(?<![A-Za-z0-9_$.])%s(?![A-Za-z0-9_(])' % re.escape(nm), lambda _m: val, l)
+        out.append(l)
+    return out
+
+
 def _norm_line(line):
     """normal form of one effect line `ctx1 | ctx2 : effect`: loop / case contexts keep their order, every `if` context is moved behind them and all
     conditions are merged into one sorted conjunction (an `if` that does not depend on an inner loop may stand outside it or inside it, and
@@ -1340,7 +1412,7 @@ def compare_summaries(facts, got, ref, enum_subjects):
     (frames, effect) pair are compared as boolean functions (guardsem): True when all are equivalent, False with a witness when some pair is
     separated by a consistent valuation of understood conditions, None when the difference involves conditions that are not understood."""
     from . import guardsem
-    gs, rs = set(norm_line(x) for x in got), set(norm_line(x) for x in ref)
+    gs, rs = set(norm_line(x) for x in inline_lets(got)), set(norm_line(x) for x in inline_lets(ref))
     if gs == rs:
         return True, ''
     th = guardsem.Theory(facts, enum_subjects)
